@@ -66,8 +66,11 @@ def loopFloat (A : FArith) (size bs1 : Nat) : Nat → Nat → Option (List Nat)
   | 0, _ => none
   | fuel + 1, place =>
     let fsize := A.rnd (size * S)
-    -- `size - place`  >  `blocksize1 * 2 - 1`
-    if place < fsize ∧ A.rnd (A.rnd (2 * bs1) - S) < A.rnd (fsize - place) then
+    -- `size - place`  >  `blocksize1 * 2 - 1`; while `place` is still the Python int `0` the left side is an exact
+    -- int that Python compares EXACTLY with the double on the right (matters for sizes ≥ 2^53 only), afterwards
+    -- `float(size) - place` is a rounded double
+    let diff := if place = 0 then size * S else A.rnd (fsize - place)
+    if place < fsize ∧ A.rnd (A.rnd (2 * bs1) - S) < diff then
       let place' := A.rnd (place + bs1)
       (loopFloat A size bs1 fuel place').map (fun r => place' / S :: r)
     else some []
